@@ -207,6 +207,7 @@ func implName(n string) string {
 const kfTransfer = "C03-allowlist-transfer-refused"
 
 type world struct {
+	lim   *limiter
 	name  string
 	rt    *rapid.T
 	cfg   *config
@@ -255,6 +256,7 @@ func newWorld(rt *rapid.T, cfg *config) *world {
 		rt.Fatalf("NewResourceManager: %v", err)
 	}
 	w.rm = rm
+	w.lim = l
 	return w
 }
 
